@@ -17,11 +17,15 @@ OffsetFailing(ev) ==
         S == g.s
         D == 2 * S * Abs(g.d)                      \* |d| in fine units
         guard == 3
-        \* reach factor of the join, as a rational num/den (outer bound for growth; for erosion the
-        \* kept region may come as close as D * den / num to a reflex vertex)
+        \* reach factor of the join, as a rational num/den: how far from the operand's boundary the
+        \* result's boundary may lie (growth: outwards; erosion: inwards, at reflex corners)
         num == CASE g.join = "round" -> 1000 [] g.join = "bevel" -> 1415 [] g.join = "miter" -> 1000 * g.tol
         den == 1000
-        arc == IF g.join = "round" THEN CeilDiv(D * 20, 1000) ELSE 0      \* 1 - cos(pi/16) < 0.02
+        \* round joins are polygonal: `tol` vertices per full turn; the vendored offsetter rounds the
+        \* number of steps of a partial arc to the nearest integer, so one chord may span up to one and
+        \* a half nominal steps: sagitta <= D (1 - cos(1.5 pi / tol))  ("up to the arc resolution")
+        arcpm == CASE g.tol >= 32 -> 11 [] g.tol >= 16 -> 44 [] OTHER -> 170
+        arc == IF g.join = "round" THEN CeilDiv(D * arcpm, 1000) ELSE 0
         Reach == CeilDiv(D * num, den) + guard
         Inner == D - guard - arc
         parts == [k \in DOMAIN g.parts |->
@@ -31,13 +35,15 @@ OffsetFailing(ev) ==
         qs == FineSamples(-7, 18, S)
         SureIn(q) == IF g.d > 0
                      THEN \E k \in DOMAIN parts : InPart(parts[k], q) \/ (Inner > 0 /\ BoundaryCloserThan(parts[k], q, Inner))
-                     ELSE \E k \in DOMAIN parts : InPart(parts[k], q) /\ BoundaryFartherThan(parts[k], q, D + guard + arc)
+                     \* erosion is growth of the complement: the join style acts at the region's reflex
+                     \* corners, where a miter / square join removes more than the round one; a point is
+                     \* surely kept when it is deeper than the join's reach
+                     ELSE \E k \in DOMAIN parts : InPart(parts[k], q) /\ BoundaryFartherThan(parts[k], q, Reach + arc)
         SureOut(q) == IF g.d > 0
                       THEN \A k \in DOMAIN parts : ~InPart(parts[k], q) /\ BoundaryFartherThan(parts[k], q, Reach)
                       ELSE \A k \in DOMAIN parts :
                               ~InPart(parts[k], q)
-                              \/ (LET lim == ((D - guard) * den) \div num IN
-                                  lim > 0 /\ BoundaryCloserThan(parts[k], q, lim))
+                              \/ (Inner > 0 /\ BoundaryCloserThan(parts[k], q, Inner))
         missing == {q \in qs : SureIn(q) /\ ~InRegion(R, q)}
         extra == {q \in qs : SureOut(q) /\ InRegion(R, q)}
     IN  (IF ev.lat /\ ev.err = 0 THEN {} ELSE {<<"lattice_or_error">>})
